@@ -742,6 +742,42 @@ theorem C03_ring_fifo {α : Type} (maxBuffered : Nat) (ops : List (Ring.Op α)) 
   have := (Ring.run_refines (maxBuffered + 1) ops (Ring.Ring.new maxBuffered) [] (Ring.rep_new maxBuffered)).1
   simpa using this
 
+/-! ### why the re-sort after stripping replica labels is unconditional
+
+  A store that cannot strip replica labels streams its series in `labels.Compare` order *with*
+  the replica label.  "Dropping a label that every series carries with the same value keeps the
+  order" is the lemma an optimisation that skips the sort for a constant replica value would
+  need.  It is false: `rmLabels` is not monotone for `labels.Compare`, because a proper-prefix pair
+  is ordered by the *name* that follows the common prefix — `{job, path, replica}` comes before
+  `{job, replica}` (path < replica) but `{job}` comes before `{job, path}`. -/
+
+private def lJob : Bytes × Bytes := ([106, 111, 98], [97, 112, 105])          -- job="api"
+private def lPath : Bytes × Bytes := ([112, 97, 116, 104], [47, 120])         -- path="/x"
+private def lReplica : Bytes × Bytes := ([114, 101, 112, 108, 105, 99, 97], [114, 49])  -- replica="r1"
+private def lZone : Bytes × Bytes := ([122, 111, 110, 101], [97])             -- zone="a"
+
+/-- refutation of the monotonicity lemma, for a single replica label with a constant value -/
+theorem rmLabels_not_monotone :
+    ¬ (∀ (a b : Labels) (names : List Bytes),
+        (∀ n ∈ names, a.lookup n ≠ none ∧ a.lookup n = b.lookup n) →
+        cmpLabels a b = .lt → cmpLabels (rmLabels a names) (rmLabels b names) ≠ .gt) := by
+  intro h
+  have := h [lJob, lPath, lReplica] [lJob, lReplica] [lReplica.1] (by decide) (by decide)
+  revert this
+  decide
+
+/-- when the extra label sorts *after* the replica label the pair keeps its order — the shape of
+    the label sets, not the replica value, decides -/
+example : cmpLabels [lJob, lReplica] [lJob, lReplica, lZone] = .lt ∧
+    cmpLabels (rmLabels [lJob, lReplica] [lReplica.1]) (rmLabels [lJob, lReplica, lZone] [lReplica.1]) = .lt := by decide
+
+/-- the model's `sortWithoutLabels` on the witness: the stream arrives in store order and leaves
+    re-ordered; stripping alone would hand an unsorted stream to the merge -/
+theorem sortWithoutLabels_reorders_constant_replica :
+    sortWithoutLabels [.series ⟨[lJob, lPath, lReplica], []⟩, .series ⟨[lJob, lReplica], []⟩] [lReplica.1]
+      = [.series ⟨[lJob], []⟩, .series ⟨[lJob, lPath], []⟩] ∧
+    cmpLabels (rmLabels [lJob, lPath, lReplica] [lReplica.1]) (rmLabels [lJob, lReplica] [lReplica.1]) = .gt := by decide
+
 /-! ### regenerated facts -/
 
 /-- the order in which `chainSeriesAndRemIdenticalChunks` walks the fields (`dedupFields`) -/
@@ -756,6 +792,12 @@ theorem C03_fact_sort : Thanos.Facts.chainSortLess = "finalChunks[i].Compare(fin
 theorem C03_fact_batch_limit :
     Thanos.Facts.batchFlushCond = "len(b.series) >= b.batchSize" ∧
     Thanos.Facts.seriesLimitCond = "r.Limit > 0 && i > int(r.Limit)" := by decide
+
+/-- `sortWithoutLabels` in the sources: the strip loop, then `sort.Slice`, nothing else at top level
+    and no return statement outside the comparator — the sort is unconditional -/
+theorem C03_fact_resort_unconditional :
+    Thanos.Facts.sortWithoutLabelsShape = ["range set", "call sort.Slice"] ∧
+    Thanos.Facts.sortWithoutLabelsReturns = "0" := ⟨rfl, rfl⟩
 
 /-! ### non-vacuity -/
 
